@@ -77,7 +77,30 @@ def gen_assign(rng, params, mode, fnames=(), big_ok=False):
     return out
 
 
-def build_cases(rng, n, max_depth, p_rep=0.15, repeated_only=False):
+def closed_form_named(rng):
+    """root(N, M) -> loop (repeated N times, closed form with the PLACEHOLDER named like the parameter: count N, sum N*(N+1)/2,
+    num_terms_symbol N) -> step; and a sibling `tail` listed after it.  Parameters passed under the same or crossed names."""
+    def leaf(name, params, val):
+        return {"name": name, "type": None, "input_params": params, "local_variables": [], "linked_params": [], "ports": [],
+                "resources": [{"name": "T", "type": "additive", "value": val}], "connections": [], "repetition": None, "children": []}
+    out = []
+    for ph, inner in (("N", "N"), ("N", "M"), ("K", "K")):
+        tri = E.op("div", E.op("mul", E.sym(ph), E.op("add", E.sym(ph), E.num(1))), E.num(2))
+        step = leaf("step", ["N", "M"], E.op("add", E.op("mul", E.num(2), E.sym("N")), E.sym("M")))
+        loop = {"name": "loop", "type": None, "input_params": [ph, "N", "M"] if ph == "K" else ["N", "M"], "local_variables": [],
+                "linked_params": [["N", [["step", "N"]]], ["M", [["step", "M"]]]], "ports": [], "resources": [], "connections": [],
+                "repetition": {"count": E.sym(ph), "sequence": {"kind": "closed_form", "sum": tri, "prod": None, "num_terms_symbol": ph}},
+                "children": [step]}
+        tail = leaf("tail", ["N", "M"], E.op("add", E.op("mul", E.sym("N"), E.sym("M")), E.num(1)))
+        links = [["N", [["loop", inner], ["tail", "N"]]], ["M", [["loop", "M" if inner == "N" else "N"], ["tail", "M"]]]]
+        if ph == "K":
+            links = [["N", [["loop", "K"], ["loop", "N"], ["tail", "N"]]], ["M", [["loop", "M"], ["tail", "M"]]]]
+        out.append({"name": "root", "type": None, "input_params": ["N", "M"], "local_variables": [], "linked_params": links, "ports": [],
+                    "resources": [], "connections": [], "repetition": None, "children": [loop, tail]})
+    return out
+
+
+def build_cases(rng, n, max_depth, p_rep=0.3, repeated_only=False):
     routines = []
     while len(routines) < n:
         r = H.gen_hierarchy(rng, max_depth=rng.randint(1, max_depth), p_rep=p_rep)
@@ -93,6 +116,7 @@ def build_cases(rng, n, max_depth, p_rep=0.15, repeated_only=False):
                 r["resources"].append({"name": "zf" + which, "type": "other",
                                        "value": E.fun("f", arg) if which == "f" else E.fun("g", arg, E.num(rng.randint(1, 3)))})
             routines.append(r)
+    routines += closed_form_named(rng)
     comp = lib.run_impl("hier-compile", [{"routine": r} for r in routines], per_case_timeout=60)
     cases = []
     for r, c in zip(routines, comp):
